@@ -908,6 +908,11 @@ def fuse_comps(t):
     t = tuple(fuse_comps(x) if isinstance(x, tuple) else x for x in t)
     if is_term(t) and t[0] == "comp" and len(t) == 4 and len(t[3]) == 1:
         tg, it, conds = t[3][0]
+        if is_term(it) and it[0] == "call" and is_term(it[1]) and it[1][0] == "attr" and it[1][2] == "items" and not it[2] and not it[3] \
+                and is_term(it[1][1]) and it[1][1][0] == "comp" and it[1][1][1] == "dict" and len(it[1][1][3]) == 1 and not it[1][1][3][0][2]:
+            # for k, v in {K: V for x in X}.items()  ==  for x in X with k := K, v := V   (keys distinct: a renaming)
+            d = it[1][1]
+            it = ("comp", "gen", ("tuple", (d[2][0], d[2][1])), d[3])
         if is_term(it) and it[0] == "comp" and it[1] in ("gen", "list") and len(it[3]) == 1 and not it[3][0][2]:
             inner_elt = it[2]
             mapping = {}
@@ -1377,8 +1382,15 @@ def atomic_diffs(a, b, path="", out=None):
                 out.append(f"~{path}: the value {word} (broadcast_to)")
                 return out
         # the reviewed value wrapped in a value-changing operation (cast, rounding, clipping, ...)
+        def _unconverted(v):
+            # asarray(v) / array(v): the same numbers
+            while is_term(v) and v[0] == "op" and len(v) == 5 and v[1] in ("asarray", "array") and (len(v[3]) == 1 or dict(v[2]).get("a") is not None):
+                v = v[3][0] if len(v[3]) == 1 else dict(v[2])["a"]
+            return v
+
         for x, y, word in ((a, b, "is additionally transformed by"), (b, a, "is no longer transformed by")):
-            if x[0] == "op" and len(x) == 5 and x[1] in _VALUE_OPS and dict(x[2]).get("a") == y:
+            if x[0] == "op" and len(x) == 5 and x[1] in _VALUE_OPS and _unconverted(dict(x[2]).get("a")) == _unconverted(y) \
+                    and dict(x[2]).get("a") is not None:
                 out.append(f"{path}: the value {word} {x[1]}")
                 return out
         # the reviewed value wrapped in / stripped of a one-argument call: tuple(x) vs x, set(x) vs x
